@@ -99,7 +99,8 @@ Qed.
 
 Lemma get_arguments_perm s :
   Permutation (get_arguments s)
-    (build_args (s_deco s) (fill_implicit_positionals s) (s_params s) (map p_name (s_params s))).
+    (build_args (s_deco s) (fill_implicit_positionals s) (s_params s)
+                (map p_name (s_params s) ++ map (fun p => translate_underscores (p_name p)) (s_params s))).
 Proof. apply reorder_perm. Qed.
 
 Lemma one_arg_per_param s :
